@@ -581,7 +581,8 @@ func CheckC12(tier string, seed uint64, rep *core.Reporter) (*core.Evidence, err
 			// Go package defects
 			defects := []string{"no-go-file", "empty-go-file", "ill-typed", "syntax-error", "no-token", "no-parser-struct", "two-parser-structs",
 				"generic-parser-struct", "arity-mismatch", "return-mismatch", "two-results", "orphan-method", "missing-method",
-				"iface-return-first", "iface-return-last", "any-return-first", "any-param", "value-receiver", "ptr-embedded-lox", "extra-methods"}
+				"iface-return-first", "iface-return-last", "any-return-first", "any-param", "value-receiver", "ptr-embedded-lox", "extra-methods",
+				"embed-missing-file", "bad-build-constraint", "junk-last-go-file", "empty-last-go-file"}
 			nd := 6
 			if tier == "thorough" {
 				nd = 12
